@@ -155,7 +155,9 @@ static inline void _mzd_copy_back_rows(mzd_t *A, mzd_t const *U, rci_t r, rci_t 
   for (int i = 0; i < k; ++i) {
     word const * src = mzd_row_const(U, i) + startblock;
     word * dst       = mzd_row(A, r + i) + startblock;
-    for (wi_t j = 0; j < width; ++j) { dst[j] = src[j]; }
+    for (wi_t j = 0; j < width - 1; ++j) { dst[j] = src[j]; }
+    /* the bits beyond the last column belong to the parent of a window: keep them */
+    dst[width - 1] = (dst[width - 1] & ~A->high_bitmask) | (src[width - 1] & A->high_bitmask);
   }
   __M4RI_DD_MZD(A);
 }
